@@ -210,12 +210,13 @@ func main() {
 		wr := vlib.Bool(s.Wire)
 		var term string
 		if s.Variant == "compare" {
-			term = vlib.App("CCompare", vlib.N(uint64(s.Df)), vlib.N(uint64(s.Th)), rk.ElemsTerm(s.L), rk.ElemsTerm(s.R), wr,
+			term = vlib.App("ICCompare", vlib.N(uint64(s.Df)), vlib.N(uint64(s.Th)), rk.ElemsTerm(s.L), rk.ElemsTerm(s.R), wr,
 				rk.IdsTerm(res.New), rk.IdsTerm(res.Changed), rk.IdsTerm(res.Theirs), rk.IdsTerm(res.Removed))
 		} else {
-			term = vlib.App("CDiff", vlib.N(uint64(s.Df)), vlib.N(uint64(s.Th)), rk.ElemsTerm(s.L), rk.ElemsTerm(s.R), wr,
+			term = vlib.App("ICDiff", vlib.N(uint64(s.Df)), vlib.N(uint64(s.Th)), rk.ElemsTerm(s.L), rk.ElemsTerm(s.R), wr,
 				rk.IdsTerm(res.New), rk.IdsTerm(res.Changed), rk.IdsTerm(res.Removed))
 		}
+		term += "%uint63"
 		desc := map[string]interface{}{"spec": s, "observed": obsHex, "fail": fail, "tags": s.Tags}
 		idx := w.Add(term, desc, key, nontrivial)
 		w.Stat("shape_" + s.Shape)
@@ -261,7 +262,7 @@ func main() {
 	}
 
 	r := vlib.NewRand(o.Seed)
-	n := 1200
+	n := 900
 	if o.Tier == "thorough" {
 		n = 12000
 	}
